@@ -72,6 +72,11 @@ type World struct {
 	asyncGoids map[uint64]bool
 	autoHolds  bool
 	workerOf   map[uint64]*workerTag
+	DriverG    uint64        // the driver goroutine is never suspended by an auto hold
+	holdGate   chan struct{} // closed to release every goroutine suspended by an auto hold
+	quiescing  bool
+	lockDepth  map[uint64]int // instrumented locks held, per goroutine
+	lockCount  map[string]int // acquisitions so far, per function
 	Scratch    map[string]any // per-run state of property-specific handlers
 	holdMu     sync.Mutex
 	holdHits   map[string]int
@@ -123,12 +128,13 @@ var runCounter int
 func NewWorld(p *Plan) *World {
 	runCounter++
 	w := &World{
-		Plan:     p,
-		H:        NewHistory(p.Start),
-		dir:      filepath.Join(ProcessTmp(), fmt.Sprintf("run%d", runCounter)),
-		SilIDs:   map[string]string{},
-		SilKeyOf: map[string]string{},
-		holdHits: map[string]int{},
+		Plan:      p,
+		H:         NewHistory(p.Start),
+		dir:       filepath.Join(ProcessTmp(), fmt.Sprintf("run%d", runCounter)),
+		SilIDs:    map[string]string{},
+		SilKeyOf:  map[string]string{},
+		holdHits:  map[string]int{},
+		lockDepth: map[uint64]int{}, lockCount: map[string]int{}, holdGate: make(chan struct{}),
 	}
 	os.MkdirAll(w.dir, 0o755)
 	if os.Getenv("VERIF_LOG") != "" {
@@ -232,6 +238,21 @@ func (t *traceBuffer) Flush() {
 	t.b.Reset()
 }
 
+// quiesce releases the goroutines suspended by auto holds and keeps new ones from
+// being suspended until the returned function is called.
+func (w *World) quiesce() func() {
+	w.mu.Lock()
+	close(w.holdGate)
+	w.quiescing = true
+	w.mu.Unlock()
+	return func() {
+		w.mu.Lock()
+		w.holdGate = make(chan struct{})
+		w.quiescing = false
+		w.mu.Unlock()
+	}
+}
+
 type workerTag struct {
 	key string
 	n   int
@@ -293,24 +314,58 @@ func (w *World) hookYield(site string, args ...any) {
 		w.mu.Unlock()
 	}
 	if strings.HasPrefix(site, "auto.") {
+		// Lock instrumentation (sim/cmd/genoverlay instrumentLocks). A goroutine is
+		// only ever suspended right before it acquires a lock while holding none of
+		// the instrumented ones.
 		if !w.autoHolds {
 			return
 		}
-		w.mu.Lock()
-		tag := w.workerOf[goid()]
+		g := goid()
 		var delay Dur
-		if tag != nil {
+		w.mu.Lock()
+		switch site {
+		case "auto.locked":
+			w.lockDepth[g]++
+		case "auto.unlocked":
+			if w.lockDepth[g] > 1 {
+				w.lockDepth[g]--
+			} else {
+				delete(w.lockDepth, g)
+			}
+		case "auto.lock":
+			name, _ := args[0].(string)
+			n := w.lockCount[name]
+			w.lockCount[name] = n + 1
+			free := w.lockDepth[g] == 0 && g != w.DriverG
 			for _, h := range w.Plan.Holds {
-				if h.Site == site && strings.Contains(tag.key, h.Match) && h.Nth == tag.n {
+				if free && h.Site == "auto.lock" && h.Match == name && h.Nth == n {
 					delay = h.Delay
 				}
 			}
-			tag.n++
+			// "auto.store": the j-th store-lock acquisition of the ingestion worker that
+			// processes a given update
+			if tag := w.workerOf[g]; tag != nil && strings.HasPrefix(name, "store.") {
+				for _, h := range w.Plan.Holds {
+					if free && h.Site == "auto.store" && strings.Contains(tag.key, h.Match) && h.Nth == tag.n {
+						delay = h.Delay
+					}
+				}
+				tag.n++
+			}
+		}
+		gate := w.holdGate
+		if w.quiescing {
+			delay = 0
 		}
 		w.mu.Unlock()
 		if delay > 0 {
 			w.H.Fire("hold:" + site)
-			time.Sleep(delay)
+			// released early when an instance is asked to stop or reload: a graceful
+			// stop waits for its background goroutines and must not take as long as a hold
+			select {
+			case <-time.After(delay):
+			case <-gate:
+			}
 		}
 		return
 	}
@@ -438,7 +493,9 @@ func (w *World) StopInst(i int, why string) {
 	if in.App == nil {
 		return
 	}
+	done := w.quiesce()
 	_ = in.App.Stop(context.Background())
+	done()
 	in.App.VerifForget()
 	in.App = nil
 	in.H = nil
@@ -467,7 +524,9 @@ func (w *World) CrashInst(i int, powerLoss func(path string) int) {
 	}
 	w.H.AddEvent("crash", in.Name, "")
 	w.H.Fire("crash")
+	done := w.quiesce()
 	_ = in.App.Stop(context.Background())
+	done()
 	in.App.VerifForget()
 	in.App = nil
 	in.H = nil
@@ -486,7 +545,9 @@ func (w *World) Reload(i, cfgIdx int) error {
 	if err := os.WriteFile(in.CfgFile, []byte(cfg.YAML(in.Name)), 0o644); err != nil {
 		return err
 	}
+	done := w.quiesce()
 	err := in.App.Reload()
+	done()
 	if err != nil {
 		w.H.AddEvent("reload-rejected", in.Name, fmt.Sprintf("cfg=%d", cfgIdx))
 		w.H.Fire("reload-rejected")
